@@ -31,6 +31,8 @@ pub enum Fault {
     Resize(u16, i8),
     DropFlst,
     DropFlfi,
+    /// announcement missing *and* one package (not the last) lost
+    DropFlstAnd(u16),
 }
 #[derive(Clone, Debug, Serialize, Deserialize)]
 pub struct Cfg {
@@ -151,7 +153,14 @@ pub struct Built {
 }
 
 pub fn build_xfer(i: usize, x: &Xfer, fault: Option<&Fault>) -> Built {
-    let content = x.content.bytes();
+    build_xfer_serial(i, x, fault, 1000 + i as u64)
+}
+pub fn build_xfer_serial(i: usize, x: &Xfer, fault: Option<&Fault>, serial: u64) -> Built {
+    // (position dependent bytes on top of the generated pattern: swapped or repeated packages never give the same file)
+    let mut content = x.content.bytes();
+    for (k, b) in content.iter_mut().enumerate() {
+        *b = b.wrapping_add(((k as u32).wrapping_mul(2654435761) >> 24) as u8);
+    }
     let len = content.len();
     let mut psize = match x.pkg_mode % 4 {
         0 => 1 + (x.pkg_sel as usize % 64),
@@ -163,7 +172,6 @@ pub fn build_xfer(i: usize, x: &Xfer, fault: Option<&Fault>) -> Built {
     psize = std::cmp::max(1, psize);
     let pkgs: Vec<Vec<u8>> = content.chunks(psize).map(|c| c.to_vec()).collect();
     let n = pkgs.len();
-    let serial = 1000 + i as u64;
     let name = file_name(x.name_kind, i);
     let w = x.int_width;
     let mut flst = Enc { be: x.be, p: vec![], n: 0 };
@@ -241,6 +249,15 @@ pub fn build_xfer(i: usize, x: &Xfer, fault: Option<&Fault>) -> Built {
                 msgs.pop();
                 expect = Some(true);
             }
+            Fault::DropFlstAnd(k) => {
+                if n >= 2 {
+                    msgs.remove(1 + pick(*k, n - 1));
+                    expect = Some(false);
+                } else {
+                    expect = None;
+                }
+                msgs.remove(0);
+            }
         }
     }
     Built { serial, name, content, pkgs: n, last_shorter: n >= 2 && pkgs[n - 1].len() < psize, msgs, expect, faulty: fault.is_some() }
@@ -271,7 +288,8 @@ fn check(c: &Case, rep: &mut Rep) -> Result<(), String> {
     // sandbox: <work>/c17_<pid>_<n>/outer/{auto,...}
     let root = work_dir().join(format!("c17_{}_{}", std::process::id(), CASE_NR.fetch_add(1, std::sync::atomic::Ordering::Relaxed)));
     let _ = std::fs::remove_dir_all(&root);
-    let outer = root.join("outer");
+    // (nested, so that names with several ".." parts stay inside what is watched)
+    let outer = root.join("l1/l2/l3/l4/outer");
     let auto = outer.join("auto");
     std::fs::create_dir_all(&auto).map_err(|e| e.to_string())?;
     let r = check_in(c, rep, &outer, &auto);
@@ -281,7 +299,11 @@ fn check(c: &Case, rep: &mut Rep) -> Result<(), String> {
 
 fn check_in(c: &Case, rep: &mut Rep, outer: &Path, auto: &Path) -> Result<(), String> {
     let fault_idx = c.fault.as_ref().map(|(s, _)| (*s as usize * c.xfers.len()) >> 16);
-    let built: Vec<Built> = c.xfers.iter().enumerate().map(|(i, x)| build_xfer(i, x, if fault_idx == Some(i) { c.fault.as_ref().map(|f| &f.1) } else { None })).collect();
+    // transfers are told apart by (ECU, lifecycle, serial): with pairwise different (ECU, lifecycle) the serials may repeat
+    let pairs: std::collections::HashSet<(u8, u32)> = c.xfers.iter().map(|x| (x.ecu, x.lifecycle)).collect();
+    let collide = c.choices.len() % 2 == 1 && pairs.len() == c.xfers.len() && c.xfers.len() >= 2;
+    rep.label_if(collide, "same_serial_on_different_ecu_or_lifecycle");
+    let built: Vec<Built> = c.xfers.iter().enumerate().map(|(i, x)| build_xfer_serial(i, x, if fault_idx == Some(i) { c.fault.as_ref().map(|f| &f.1) } else { None }, if collide { 1000 + (i as u64 % 2) } else { 1000 + i as u64 })).collect();
     // interleave with each other and with unrelated traffic
     let mut seqs: Vec<Vec<(usize, DltMessage, Tag)>> = built.iter().enumerate().map(|(i, b)| b.msgs.iter().cloned().map(|(m, t)| (i, m, t)).collect()).collect();
     let noise: Vec<(usize, DltMessage, Tag)> = (0..(c.choices.len() % 7))
@@ -318,7 +340,8 @@ fn check_in(c: &Case, rep: &mut Rep, outer: &Path, auto: &Path) -> Result<(), St
     if c.cfg.preexisting {
         std::fs::write(&pre_name, b"old content").map_err(|e| e.to_string())?;
     }
-    let before = snapshot(outer.parent().unwrap());
+    let watched = outer.ancestors().nth(5).unwrap().to_path_buf();
+    let before = snapshot(&watched);
     let mut plugin = FileTransferPlugin::from_json(cfg.as_object().unwrap()).map_err(|e| format!("plugin config refused: {}", e))?;
     let sees = c.cfg.restrict % 4 != 3;
     for (i, (_xi, m, tag)) in stream.iter().enumerate() {
@@ -335,12 +358,13 @@ fn check_in(c: &Case, rep: &mut Rep, outer: &Path, auto: &Path) -> Result<(), St
     let state = state.read().map_err(|_| "state poisoned")?;
     let all_items: Vec<serde_json::Value> = state.value["treeItems"].as_array().cloned().unwrap_or_default();
     let sorted_children: Vec<serde_json::Value> = all_items.iter().filter(|i| i["label"] == "Sorted by name").flat_map(|i| i["children"].as_array().cloned().unwrap_or_default()).collect();
+    let has_sorted_view = all_items.iter().any(|i| i["label"] == "Sorted by name");
     let items: Vec<serde_json::Value> = all_items.into_iter().filter(|i| i["label"] != "Sorted by name").collect();
     let multi = built.len() >= 2;
     rep.label_if(multi, "ge2_transfers");
     rep.label_if(c.fault.is_some(), "fault");
     if let Some((_, f)) = &c.fault {
-        rep.label(match f { Fault::Drop(_) => "fault_drop", Fault::Dup(..) => "fault_dup", Fault::Swap(_) => "fault_swap", Fault::Resize(..) => "fault_resize", Fault::DropFlst => "fault_drop_flst", Fault::DropFlfi => "fault_drop_flfi" });
+        rep.label(match f { Fault::Drop(_) => "fault_drop", Fault::Dup(..) => "fault_dup", Fault::Swap(_) => "fault_swap", Fault::Resize(..) => "fault_resize", Fault::DropFlst => "fault_drop_flst", Fault::DropFlfi => "fault_drop_flfi", Fault::DropFlstAnd(_) => "fault_drop_flst_and_package" });
     }
     rep.label_if(built.iter().any(|b| b.last_shorter), "last_package_shorter");
     rep.label_if(glob.is_some(), "auto_save");
@@ -375,7 +399,9 @@ fn check_in(c: &Case, rep: &mut Rep, outer: &Path, auto: &Path) -> Result<(), St
         }
         // the same transfer is listed a second time below "Sorted by name": same state, and its own save context must work as well
         let sorted_mine: Vec<&serde_json::Value> = sorted_children.iter().filter(|i| i["tooltip"].as_str().map_or(false, |t| t.contains(&needle) && t.starts_with(&format!("{}, LC id={},", ecu_name(x.ecu), x.lifecycle)))).collect();
-        ensure_eq!(sorted_mine.len(), mine.len(), "transfer {} listed {} times by occurrence but {} times in the sorted view", b.serial, mine.len(), sorted_mine.len());
+        if has_sorted_view {
+            ensure_eq!(sorted_mine.len(), mine.len(), "transfer {} listed {} times by occurrence but {} times in the sorted view", b.serial, mine.len(), sorted_mine.len());
+        }
         for sm in &sorted_mine {
             ensure!((sm["iconPath"] == "file") == complete, "sorted view and occurrence view disagree on the completeness of transfer {}", b.serial);
         }
@@ -387,7 +413,7 @@ fn check_in(c: &Case, rep: &mut Rep, outer: &Path, auto: &Path) -> Result<(), St
             }
         }
         if complete && c.cfg.allow_save {
-            ensure_eq!(idxs.len(), 2, "save contexts offered for complete transfer {}", b.serial);
+            ensure_eq!(idxs.len(), if has_sorted_view { 2 } else { 1 }, "save contexts offered for complete transfer {}", b.serial);
         }
         for (k, i) in idxs.iter().enumerate() {
             if let Some(apply) = state.apply_command {
@@ -408,7 +434,7 @@ fn check_in(c: &Case, rep: &mut Rep, outer: &Path, auto: &Path) -> Result<(), St
         }
         // auto save expectation
         if let (Some(g), true) = (glob, complete) {
-            let listed_name = if matches!((&c.fault, fault_idx), (Some((_, Fault::DropFlst)), Some(fi)) if fi == bi) { "<missing_flst>".to_string() } else { b.name.clone() };
+            let listed_name = if matches!((&c.fault, fault_idx), (Some((_, Fault::DropFlst | Fault::DropFlstAnd(_))), Some(fi)) if fi == bi) { "<missing_flst>".to_string() } else { b.name.clone() };
             if glob::Pattern::new(g).unwrap().matches(&listed_name) {
                 let base = Path::new(&listed_name).file_name().map(|s| s.to_string_lossy().into_owned());
                 if let Some(base) = base {
@@ -425,7 +451,7 @@ fn check_in(c: &Case, rep: &mut Rep, outer: &Path, auto: &Path) -> Result<(), St
     }
     drop(state);
     // file system effects
-    let after = snapshot(outer.parent().unwrap());
+    let after = snapshot(&watched);
     for (p, data) in &after {
         match before.get(p) {
             Some(old) => ensure!(old == data, "existing file {} was modified", p.display()),
@@ -471,6 +497,7 @@ pub fn def(tier: Tier) -> PropertyDef {
         (any::<u16>(), prop_oneof![Just(1i8), Just(-1i8), -3i8..4]).prop_map(|(a, b)| Fault::Resize(a, b)),
         Just(Fault::DropFlst),
         Just(Fault::DropFlfi),
+        any::<u16>().prop_map(Fault::DropFlstAnd),
     ];
     let cfg = (prop::bool::weighted(0.7), any::<bool>(), prop_oneof![4 => Just(0u8), 2 => Just(1u8), 2 => Just(2u8), 1 => Just(3u8)], 0u8..4, any::<bool>()).prop_map(|(allow_save, keep_flda, restrict, auto_save, preexisting)| Cfg { allow_save, keep_flda, restrict, auto_save, preexisting });
     let case = (prop::collection::vec(xfer, 1..5), prop::option::weighted(0.6, (any::<u16>(), fault)), prop::collection::vec(any::<u16>(), 0..24), cfg).prop_map(|(xfers, fault, choices, cfg)| Case { xfers, fault, choices, cfg });
